@@ -24,6 +24,7 @@ type Obligation struct {
 	Text    string   // source text of the clause
 	Values  []string // terms to get-value on sat
 	ExpectSat bool   // cover queries: sat is the good answer
+	QuickOnly bool   // recorded known finding: one short attempt is enough (it is expected not to discharge)
 	Err     string   // generation failure (counts as undischarged)
 	Fx      *FnExec  // the function execution this obligation belongs to (for replay)
 	Expr    SpecExpr // the conjunct this obligation checks (for evaluating it on a concrete run)
